@@ -355,6 +355,33 @@ func c02TxReaderChain(c *Ctx, r string) {
 		if !found {
 			c.fail(r, fnName(f)+":chain-compared", c.pos(f.Pos()), "TxReader.Read no longer compares PrevAlh with the previous Alh")
 		}
+		// every transaction handed out is chained to the previous one, in both directions: a successful return is
+		// reached only across an Alh comparison (CurrAlh against the tx's PrevAlh when ascending, against its Alh
+		// when descending) or on the very first read of the scan (InitialTxID == CurrTxID)
+		rd := sites(f, callTo(storeT+"readTx"))
+		first := whenCond(true, func(a string) bool {
+			return strings.Contains(a, "InitialTxID") && strings.Contains(a, "CurrTxID") && strings.Contains(a, " == ")
+		})
+		cmpAsc := func(a string) bool { return strings.Contains(a, "CurrAlh") && strings.Contains(a, "PrevAlh") && strings.Contains(a, " == ") }
+		cmpDesc := func(a string) bool {
+			return strings.Contains(a, "CurrAlh") && strings.Contains(a, ".Alh[") && strings.Contains(a, " == ")
+		}
+		asc := whenCond(false, func(a string) bool { return hasFieldSuffix(a, "Desc") })
+		dsc := whenCond(true, func(a string) bool { return hasFieldSuffix(a, "Desc") })
+		if len(rd) == 0 {
+			c.undecided(r, fnName(f)+":readTx", "readTx call not found")
+		} else {
+			for name, spec := range map[string][2]edgePred{
+				"ascending":  {anyEdge(whenCond(true, cmpAsc), whenCond(false, cmpAsc)), dsc},
+				"descending": {anyEdge(whenCond(true, cmpDesc), whenCond(false, cmpDesc)), asc},
+			} {
+				// paths of the other direction are cut; what is left must cross the comparison or the first-read edge
+				q := &pathQ{fn: f, from: rd, to: successReturn, barrier: anyEdge(first, spec[0], spec[1])}
+				w := q.bypass()
+				c.check(w == nil, r, fnName(f)+":every-handed-out-tx-is-chained:"+name, c.pos(rd[0].Pos()), "success only across the Alh comparison or on the first read",
+					"a "+name+" scan can hand out a transaction without comparing it with the accumulated hash of its neighbour: "+c.witnessStr(w))
+			}
+		}
 	}
 
 }
